@@ -48,6 +48,9 @@ pub enum Action {
     /// the server forgets every path secret immediately before this datagram is handled
     /// (tcp family: immediately before socket call i is answered)
     Forget,
+    /// garbled copies of this datagram (every bit-pattern listed in `garbled_copies`) are delivered just
+    /// before the genuine one: none of them verifies, so none may have any effect
+    Garble,
     // ---- tcp family, "calls" mode: the index is the socket-call index (see tcp.rs)
     /// the call transfers one byte only (short read / partial write)
     One,
@@ -77,6 +80,47 @@ pub enum Action {
     CutQuiet(u8),
 }
 
+/// Unauthentic variants of a genuine dc datagram: three masks on each of the first 48 bytes (tag byte,
+/// credentials, stream id, packet number, offsets, lengths), each of the first 24 bytes replaced by
+/// 0x3f / 0x7f / 0xff (variable-length integers turned into large values), every byte of the
+/// authentication tag flipped, the last byte dropped, and the packet with a zeroed tag.
+pub fn garbled_copies(genuine: &[u8]) -> Vec<Vec<u8>> {
+    let n = genuine.len();
+    let mut out = Vec::new();
+    for pos in 0..n.min(48) {
+        for mask in [0x01u8, 0x80, 0xff] {
+            let mut f = genuine.to_vec();
+            f[pos] ^= mask;
+            out.push(f);
+        }
+    }
+    for pos in 1..n.min(24) {
+        for v in [0x3fu8, 0x7f, 0xff] {
+            if genuine[pos] != v {
+                let mut f = genuine.to_vec();
+                f[pos] = v;
+                out.push(f);
+            }
+        }
+    }
+    for pos in n.saturating_sub(16)..n {
+        let mut f = genuine.to_vec();
+        f[pos] ^= 0x01;
+        out.push(f);
+    }
+    if n > 1 {
+        out.push(genuine[..n - 1].to_vec());
+    }
+    if n > 16 {
+        let mut f = genuine.to_vec();
+        for b in &mut f[n - 16..] {
+            *b = 0;
+        }
+        out.push(f);
+    }
+    out
+}
+
 impl Action {
     pub fn code(&self) -> String {
         match self {
@@ -86,6 +130,7 @@ impl Action {
             Action::Delay(m) => format!("L{}", m),
             Action::BlackholeFrom => "B".into(),
             Action::Forget => "F".into(),
+            Action::Garble => "G".into(),
             Action::One => "O".into(),
             Action::Half => "H".into(),
             Action::AllBut1 => "M".into(),
@@ -108,6 +153,7 @@ impl Action {
             "L" => Action::Delay(t.parse().ok()?),
             "B" => Action::BlackholeFrom,
             "F" => Action::Forget,
+            "G" => Action::Garble,
             "O" => Action::One,
             "H" => Action::Half,
             "M" => Action::AllBut1,
@@ -277,6 +323,16 @@ impl Allocator for ChoiceAlloc {
                                 pushes.push((base + Duration::from_micros(extra), packet));
                             }
                             Action::Delay(m) => pushes.push((base * m, packet)),
+                            Action::Garble => {
+                                let genuine = packet.transport.payload().to_vec();
+                                for (k, f) in garbled_copies(&genuine).into_iter().enumerate() {
+                                    let mut p = packet.clone();
+                                    *p.transport.payload_mut() = f.into();
+                                    // one microsecond apart, all of them ahead of the genuine datagram
+                                    pushes.push((base + Duration::from_micros(k as u64), p));
+                                }
+                                pushes.push((base + Duration::from_micros(400), packet));
+                            }
                             // Deliver, Forget; the tcp-family actions never occur in a UDP schedule
                             _ => pushes.push((base, packet)),
                         }
